@@ -129,6 +129,17 @@ func (ex *Exec) noteWrite(p Ptr) {
 	}
 }
 
+// noteSyncWrite records a write to shared state through a synchronised container
+// (no race possible, but the state outlives the call).
+func (ex *Exec) noteSyncWrite(p Ptr) {
+	if ex.shared == nil || p == nil {
+		return
+	}
+	if loc, ok := ex.shared.cells[p]; ok {
+		ex.shared.log = append(ex.shared.log, sharedWrite{loc: loc, inOnce: ex.onceDepth > 0})
+	}
+}
+
 func (ex *Exec) noteMap(m *Map, write bool) {
 	if ex.shared == nil || m == nil {
 		return
